@@ -383,6 +383,7 @@ def targets(ctx):
                rule="chains of 5, 12, 25, 40, 60 and 90 nested messages through a singular field / repeated field / map value / oneof member / a mix: round trip, len, reference re-encoding, JSON round trip, and at most 400*(depth+2)**2 calls of Message.__eq__"),
         Target("payload_sizes_around_powers_of_two", size_ev, cases=size_cases, exhaustive=True,
                rule="one bytes / string / nested-message / packed payload of exactly 2**k-1, 2**k, 2**k+1 bytes (k = 7..23, thorough 24) and 3*2**k, 5 MiB, 6 MiB: round trip, len, reference re-encoding"),
+        __import__("vf.props.c15", fromlist=["fold_target"]).fold_target(c),
         _seq.target("C01"),
         _wkt.target("C01"),
     ]
